@@ -396,11 +396,12 @@ func (m c10Mode) class() string {
 }
 
 type c10Pred struct {
-	objs    []c10Obj   // expected objects, index-aligned with the input
-	views   []*c10View // the same objects with their ids
-	err     bool       // the operation is expected to fail
-	unknown bool       // outside the oracle's domain: no verdict
-	notes   []string
+	objs       []c10Obj   // expected objects, index-aligned with the input
+	views      []*c10View // the same objects with their ids
+	err        bool       // the operation is expected to fail
+	unknown    bool       // outside the oracle's domain: no verdict
+	nullTarget bool       // a replacement wrote into an existing field holding null (finding C10/replacement-keeps-target-tag-not-encodable)
+	notes      []string
 }
 
 // c10Spec: the directives of one build / one micro case
@@ -942,6 +943,7 @@ func (sp c10Spec) predictRepls(p *c10Pred, mode c10Mode) {
 							// oracle cannot express that state: no verdict (the Coq model, which carries tags, is
 							// compared with the implementation on these cases)
 							p.unknown = true
+							p.nullTarget = true
 							return
 						}
 						if nsVal != nil {
@@ -1650,6 +1652,15 @@ func c10CheckTree(run *Run, t c10Tree, out string, cls string, msg string) (viol
 		run.Count("tree_class", cls)
 	}
 	fp, _ := json.Marshal(t)
+	if len(t.Repls) > 0 && cls == ClsErr && c10KeptTagRe.MatchString(msg) {
+		// the replacement "succeeded" and left a node tagged !!null with a text: ResMap.AsYaml cannot encode it
+		d := "a replacement wrote a text into a scalar that kept its tag; the build output cannot be encoded: " + msg
+		if run != nil {
+			run.Violation(OracleViolation{Law: "written_value_well_formed", Class: "C10/replacement-keeps-target-tag-not-encodable", Detail: d, Replay: t})
+			run.AddEval(string(fp), true)
+		}
+		return true, "C10/replacement-keeps-target-tag-not-encodable: " + d
+	}
 	if p.unknown {
 		if run != nil {
 			run.Count("tree", "outside-oracle-domain")
